@@ -70,6 +70,7 @@ func VerifC05_Ids() {
 
 var VerifEntries = map[string]func(){
 	"VerifC05_Ids":            VerifC05_Ids,
+	"VerifC06_Rekey": VerifC06_Rekey,
 	"VerifC06_Signatures":     VerifC06_Signatures,
 	"VerifC14_Assign":         VerifC14_Assign,
 	"VerifC14_Relay":          VerifC14_Relay,
